@@ -489,7 +489,7 @@ def cleanup_build():
 def do_replay(path):
     rp = json.load(open(path))
     mod = importlib.import_module('props.' + rp['module'])
-    obs = [o for o in mod.obligations(rp.get('tier', 'thorough')) if o.name == rp['obligation']]
+    obs = [o for t in (rp.get('tier', 'thorough'), 'quick', 'thorough') for o in mod.obligations(t) if o.name == rp['obligation']]
     if not obs:
         print('unknown obligation', rp['obligation']); return 2
     ob = obs[0]
